@@ -226,3 +226,26 @@ func Balances(b *block.Block, txn *transaction.Transaction) (*cstate.StateContex
 func Fresh(t util.MerklePatriciaTrieI) {
 	_ = t
 }
+
+// AssertAuthorised asserts the C04 attribution rule on the transfers queued so far: every
+// transfer is paid by one of the contract's own wallets (own) or by the transaction's
+// sender, and what the sender pays in total does not exceed the transaction value.
+func AssertAuthorised(balances cstate.StateContextI, t *transaction.Transaction, own ...string) {
+	var fromSender []uint64
+	for _, tr := range balances.GetTransfers() {
+		if tr.Amount == 0 {
+			continue
+		}
+		if tr.ClientID == t.ClientID {
+			fromSender = append(fromSender, uint64(tr.Amount))
+			continue
+		}
+		ok := false
+		for _, o := range own {
+			ok = ok || tr.ClientID == o
+		}
+		sym.Assert(ok, "a contract call debits only the sender or the contract's own wallets")
+	}
+	sym.Assert(sym.SumLe(fromSender, []uint64{uint64(t.Value)}), "a contract call debits its sender by at most the transaction value")
+	sym.Assert(len(balances.GetSignedTransfers()) == 0, "no signed transfer is queued by this contract function")
+}
